@@ -324,6 +324,6 @@ def _spec(case, rec):
 def clauses():
     return [
         Clause("roundtrips", _case(), _run, quick=1200, thorough=25000, rule="gsd / repr / to_json / to_hoomd of generated shapes",
-               floors={"off_origin": 0.15, "zero_radius": 0.01, "hoomd": 0.4}),
+               floors={"off_origin": 0.05, "zero_radius": 0.01, "hoomd": 0.4}),
         Clause("gsd_specs", _spec_case(), _spec, quick=400, thorough=6000, rule="hand-built GSD dicts incl. malformed ones", floors={}),
     ]
